@@ -12,7 +12,7 @@ Requests:
   tree depth | ops… | order tags… | seed m k                 → surviving tags
   exh | ops… | seed m k                                      → surviving tags
   sametl n | gid:q,q… … | gid:q,q… …                         → 1 / 0
-  gtc orig | cycle / cycle / … (ops tag:q,q) | cyc:q cyc:q …   → get_tree_circs on the cycle grid:
+  gtc left|right orig | cycle / cycle / … (ops tag:q,q) | cyc:q cyc:q …  → get_tree_circs on the grid:
                                                                `raise` or the tag lists `a b c ; …` -/
 namespace BqVerif.Drv.Accept
 open BqVerif.Accept BqVerif.Drv
@@ -77,10 +77,10 @@ def step (line : String) : String :=
        if m == 0 then "bad-op" else
        showTags (exhaustiveRun (fun _ => ()) (script seed m k) score (ops, ())).1
      | _, _ => "bad-op")
-  | [["gtc", orig], grid, chunk] =>
+  | [["gtc", dir, orig], grid, chunk] =>
     (match orig.toNat?, parseGrid grid, parseChunk chunk with
      | some orig, some g, some ch =>
-       (match AcceptGrid.getTreeCircs orig g ch with
+       (match AcceptGrid.getTreeCircs (dir == "left") orig g ch with
         | none => "raise"
         | some l => " ; ".intercalate (l.map fun x =>
             " ".intercalate ((AcceptGrid.tags x).map toString)))
